@@ -19,7 +19,10 @@ PID = 'C01'
 RULE = ('one bucket per overloaded function (and entry point family); cases = (function, entry point, D, P, shape, '
         'coefficient array) drawn by Hypothesis with zeroth coefficients inside the domain of smoothness (independent per '
         'direction/element) and dense or sparse higher coefficients; non-trivial = D >= 3 and some x_1 != 0 and some '
-        'x_k != 0 for k >= 2 (convolution terms contribute); distinct by descriptor hash')
+        'x_k != 0 for k >= 2 (convolution terms contribute); distinct by descriptor hash.  Further bucket kinds: pow:* (integer, '
+        'negative, real, reflected, polynomial exponents), kink:* (abs/sign/min/max/clip away from the kink), largeD:* (D up to 28), memory '
+        'layouts C/F/transposed view, tiny:* (|x_0| = 1e-5..1e-100, zeroth coefficient relative to its own size), recall:* (same object '
+        'evaluated again after an in-place update; non-trivial there = D >= 2 and the update changes the coefficients)')
 ASSUMPTIONS = [
     'mpmath numerical differentiation at >= 50 digits is the reference for d^d/dt^d f(x(t))',
     'tolerance 1e-9 (hyperu 1e-6) relative to max(1, max_{k<=d}|ref_k|); inputs keep a margin from singularities/kinks',
